@@ -651,7 +651,8 @@ def slot(repo, out):
                 continue
             stores += 1
             K, I, E = js
-            # key
+            # key (possibly hoisted into a local: `key = (u, inp)`)
+            K, _kat = resolve(rd, n, K)
             verdict = _check_key(K, n, rd, wname, fn, out)
             if verdict is not True:
                 continue
@@ -668,17 +669,27 @@ def slot(repo, out):
                         bad = True
             if bad:
                 continue
-            # membership guard uses the same key
-            guards = [x for x in astx.ancestors(n.ast) if isinstance(x, ast.If)]
+            # membership guard (enclosing `if K in partials:` or preceding `if K not in partials: continue`
+            # in the same loop body) uses the same key
+            myloop = loops_around(n.ast)[0] if loops_around(n.ast) else None
             gbad = False
-            for gd in guards:
-                t = gd.test
-                if isinstance(t, ast.Compare) and len(t.ops) == 1 and isinstance(t.ops[0], (ast.In, ast.NotIn)) and \
-                        isinstance(t.comparators[0], ast.Name) and t.comparators[0].id == 'partials':
-                    if not astx.same(t.left, K):
-                        out.bad(fn, gd, f'membership test `{astx.src(t)}` guards a store under a different key '
-                                f'`{astx.src(K)}`', key='key-guard-mismatch')
-                        gbad = True
+            for tn in reg:
+                if tn.kind != 'test' or not isinstance(tn.ast, ast.If):
+                    continue
+                t = tn.ast.test
+                if isinstance(t, ast.UnaryOp) and isinstance(t.op, ast.Not):
+                    t = t.operand
+                if not (isinstance(t, ast.Compare) and len(t.ops) == 1 and isinstance(t.ops[0], (ast.In, ast.NotIn))
+                        and astx.path(t.comparators[0]) == 'partials'):
+                    continue
+                tl = loops_around(tn.ast)
+                if (tl[0] if tl else None) is not myloop:
+                    continue
+                left, _ = resolve(rd, tn, t.left)
+                if not astx.same(left, K):
+                    out.bad(fn, tn.ast, f'membership test `{astx.src(t)}` guards a store under a different key '
+                            f'`{astx.src(K)}`', key='key-guard-mismatch')
+                    gbad = True
             if gbad:
                 continue
             # column
@@ -1079,11 +1090,14 @@ def _size_env_eval(e, env, rd, at, depth=0):
         if v is e or isinstance(v, ast.Name):
             raise Unknown(e)
         return _size_env_eval(v, env, rd, at2, depth + 1)
-    if isinstance(e, ast.Attribute) and e.attr == 'size':
+    if isinstance(e, ast.Attribute) and e.attr in ('size', 'shape', 'ndim'):
         role = env['role_of'](e.value, at)
         if role is None:
             raise Unknown(e)
-        return env['roles'][role][1]
+        r_ = env['roles'][role]
+        if e.attr != 'size' and not r_[0]:
+            raise Unknown(e)    # python scalars have no shape
+        return r_[1] if e.attr == 'size' else r_[2] if e.attr == 'shape' else len(r_[2])
     if isinstance(e, ast.Call) and astx.call_name(e) == 'isinstance' and len(e.args) == 2:
         role = env['role_of'](e.args[0], at)
         ty = astx.path(e.args[1])
@@ -1099,10 +1113,12 @@ def _size_env_eval(e, env, rd, at, depth=0):
         a = _size_env_eval(e.left, env, rd, at, depth + 1)
         b = _size_env_eval(e.comparators[0], env, rd, at, depth + 1)
         op = type(e.ops[0])
-        table = {ast.Lt: a < b, ast.LtE: a <= b, ast.Gt: a > b, ast.GtE: a >= b, ast.Eq: a == b, ast.NotEq: a != b}
-        if op not in table:
+        import operator
+        table = {ast.Lt: operator.lt, ast.LtE: operator.le, ast.Gt: operator.gt, ast.GtE: operator.ge,
+                 ast.Eq: operator.eq, ast.NotEq: operator.ne}
+        if op not in table or (isinstance(a, tuple) != isinstance(b, tuple)):
             raise Unknown(e)
-        return table[op]
+        return table[op](a, b)
     raise Unknown(e)
 
 
@@ -1144,16 +1160,17 @@ def _walk_outcomes(g, start, stop, env, rd, classify):
     return outs
 
 
-STATES = [(H, (ia, isz), (oa, osz))
+# (is ndarray, size, shape): sizes 1 / 3 / 5, and a size-3 output of a different shape than the size-3 input
+STATES = [(H, i_, o_)
           for H in (False, True)
-          for ia, isz in ((True, 1), (True, 3), (False, 1))
-          for oa, osz in ((True, 1), (True, 3), (True, 5), (False, 1))]
+          for i_ in ((True, 1, (1,)), (True, 3, (3,)), (False, 1, ()))
+          for o_ in ((True, 1, (1,)), (True, 3, (3,)), (True, 3, (1, 3)), (True, 5, (5,)), (False, 1, ()))]
 
 
 def _fmt_state(s):
-    H, (ia, isz), (oa, osz) = s
-    f = lambda a, z: ('size-%d array' % z) if a else 'python scalar'
-    return f'has_diag_partials={H}, input {f(ia, isz)}, output {f(oa, osz)}'
+    H, (ia, isz, ish), (oa, osz, osh) = s
+    f = lambda a, z, sh: ('shape-%s array' % (sh,)) if a else 'python scalar'
+    return f'has_diag_partials={H}, input {f(ia, isz, ish)}, output {f(oa, osz, osh)}'
 
 
 def _declared_kinds(dl, out=None):
@@ -1260,10 +1277,12 @@ def declare(repo, out):
         return
     out.ok(fn, eloop, 'for every expression: outputs x (rhs variables - outputs)')
     # no filter between loops and declaration
+    # (a `continue` is judged by the path check below: after a declaration it is harmless; `break` / `return`
+    # abandon the remaining pairs whatever precedes them)
     for st in astx.walk_stmts(eloop.body):
-        if isinstance(st, (ast.Continue, ast.Break, ast.Return)):
-            out.bad(fn, st, f'`{astx.src(st)}` inside the declaration loops skips (out, inp) pairs: undeclared '
-                    'partials are treated as zero', key='declare-filter')
+        if isinstance(st, (ast.Break, ast.Return)):
+            out.bad(fn, st, f'`{astx.src(st)}` inside the declaration loops skips the remaining (out, inp) pairs: '
+                    'undeclared partials are treated as zero', key='declare-filter')
             ok = False
     # of / wrt arguments
     for n, c in dl.decls:
@@ -1317,6 +1336,14 @@ def declare(repo, out):
         out.bad(fn, iloop, 'an (out, inp) pair can pass the loop body without being declared: ' + g.fmt_path(w),
                 key='declare-filter')
         return
+    for outer_l, inner_l in ((dl.loops[1], dl.loops[0]), (dl.loops[2], dl.loops[1])):
+        oh = g.nodes_of(outer_l)[0]
+        ih = g.nodes_of(inner_l)
+        w = g.path([m for m, lab in g.succ[oh] if lab == 'true'], [oh], avoid=ih, labels=cfgm.noexc)
+        if w is not None:
+            out.bad(fn, outer_l, f'an iteration of `{astx.src(outer_l)}` can end without running the nested loop: '
+                    'its (out, inp) pairs are not declared: ' + g.fmt_path(w), key='declare-filter')
+            return
     # ORDER: before super()._setup_partials()
     sup = [n for n in g.calling('_setup_partials') if any(
         astx.callee_attr(c) == '_setup_partials' and isinstance(astx.receiver(c), ast.Call) and
@@ -1491,7 +1518,7 @@ def diag(repo, out):
             seen.add(key)
             out.bad(where, node, why, key=key)
     for s in STATES:
-        H, (ia, isz), (oa, osz) = s
+        H, (ia, isz, _ish), (oa, osz, _osh) = s
         dk, (pk, tainted) = D[s], P[s]
         if len(dk) != 1:
             out.unsure(fdecl, None, f'ambiguous declaration outcome {sorted(dk)} for {_fmt_state(s)}')
@@ -1501,6 +1528,10 @@ def diag(repo, out):
             bad(fdecl, dl.inner, f'no partial is declared for {_fmt_state(s)}', 'declare-none')
             continue
         if dk == 'raise':
+            if not (H and isz > 1 and osz > 1 and osz != isz):
+                bad(fdecl, dl.inner, f'_setup_partials raises for {_fmt_state(s)}, a configuration for which outputs and '
+                    'partials are well defined (only a non-square array/array block under has_diag_partials may be '
+                    'rejected)', 'declare-rejects-admissible')
             continue
         if dk == 'diag' and isz > 1 and osz > 1 and osz != isz:
             continue   # the framework rejects a non-square diagonal declaration: same as the explicit raise
@@ -1688,7 +1719,7 @@ def sync(repo, out):
 
 
 # =========================================================================== C14.coloring
-@rule('C14.coloring', floor=3)
+@rule('C14.coloring', floor=4)
 def coloring(repo, out):
     """The sparsity pass of _compute_coloring perturbs every input element, records column i for element i, and leaves the input vector as it found it."""
     fn = repo.func(EC, 'ExecComp._compute_coloring')
@@ -1814,6 +1845,75 @@ def coloring(repo, out):
                 'inputs: ' + g.fmt_path(w), key='inputs-not-restored')
         return
     out.ok(fn, sn.ast, 'inputs snapshot is a copy and is restored whenever the complex array aliases the vector')
+
+    # ---- the sparsity sample moves EVERY input element: offsets scaled by the inputs need their zeros replaced
+    samples = [n for n in g.body_nodes(outer) if n.kind == 'stmt' and isinstance(n.ast, ast.Assign)
+               and len(n.ast.targets) == 1 and _is_inplace_full(n.ast.targets[0], rd, n, 'self._inarray')]
+    if len(samples) != 1:
+        out.unsure(fn, outer, 'sparsity sample `inarr[:] = start + offsets * random` not recognised')
+        return
+    smp = samples[0]
+    offs = [w.id for w in astx.walk(smp.ast.value) if isinstance(w, ast.Name) and w.id != sname
+            and rd.defs(smp, w.id) and w.id not in ('np', 'numpy', 'get_random_arr', 'self')]
+    offs = [x for x in dict.fromkeys(offs) if any(dn.kind == 'stmt' for dn in rd.defs(smp, x))]
+
+    def from_snapshot(name, at, depth=0):
+        """True if `name` is (a copy / multiple of) the snapshot, looking through in-place updates."""
+        if depth > 6:
+            return None
+        verdicts = set()
+        for dn in rd.defs(at, name):
+            if dn.kind != 'stmt':
+                verdicts.add(None)
+            elif isinstance(dn.ast, ast.AugAssign):
+                verdicts.add(from_snapshot(name, dn, depth + 1))
+            elif isinstance(dn.ast, ast.Assign) and isinstance(dn.ast.targets[0], ast.Name):
+                v = dn.ast.value
+                if sname in astx.names(v):
+                    has_repl = any(isinstance(c, ast.Call) and astx.call_name(c) in ('np.where', 'numpy.where')
+                                   for c in astx.walk(v))
+                    verdicts.add('guarded' if has_repl else True)
+                else:
+                    verdicts.add(False)
+            else:
+                verdicts.add(None)
+        return verdicts.pop() if len(verdicts) == 1 else None
+
+    def zero_replaced(name):
+        """A statement `name[name == 0] = c` (c a nonzero constant) on every path to the sample."""
+        def is_repl(n):
+            if not (n.kind == 'stmt' and isinstance(n.ast, ast.Assign) and len(n.ast.targets) == 1):
+                return False
+            t, v = n.ast.targets[0], n.ast.value
+            if not (isinstance(t, ast.Subscript) and isinstance(t.value, ast.Name) and t.value.id == name):
+                return False
+            c = t.slice
+            if not (isinstance(c, ast.Compare) and len(c.ops) == 1 and isinstance(c.ops[0], ast.Eq)):
+                return False
+            sides = [c.left, c.comparators[0]]
+            if not (any(isinstance(x, ast.Name) and x.id == name for x in sides) and
+                    any(isinstance(x, ast.Constant) and x.value == 0 for x in sides)):
+                return False
+            return isinstance(v, ast.Constant) and isinstance(v.value, (int, float)) and v.value != 0
+        repl = g.where(is_repl)
+        return bool(repl) and g.dominated_by(smp, repl, labels=cfgm.noexc) is None
+    verdict = 'ok'
+    for x in offs:
+        fs = from_snapshot(x, smp)
+        if fs is True and not zero_replaced(x):
+            out.bad(fn, smp.ast, f'the sample offsets `{x}` are proportional to the current inputs and their zeros are '
+                    'not replaced: an input that is exactly 0 is never moved, partials that vanish there are '
+                    'missing from the sparsity and stay zero in the colored jacobian', key='sparsity-zero-offsets')
+            verdict = 'bad'
+            break
+        if fs is None:
+            verdict = 'unsure'
+    if verdict == 'bad':
+        return
+    if verdict == 'unsure' or not offs:
+        out.unsure(fn, smp.ast, 'origin of the sample offsets not recognised')
+        return
+    out.ok(fn, smp.ast, 'every input element is moved by the sparsity sample (zero inputs get a unit offset)')
 
     # ---- offsets must not alias the snapshot (it is modified in place)
     mods = [n for n in g.where(lambda n: n.kind == 'stmt' and isinstance(n.ast, (ast.AugAssign, ast.Assign)))
@@ -2343,10 +2443,8 @@ selftest(
            '        for name, start, stop in self._outputs.ranges():\n            name = name[plen:]', 'C14.slot'),
     Mutant('slot-of-names-inputs', EC, "        out_names = self._var_rel_names['output']\n        inv_stepsize",
            "        out_names = self._var_rel_names['input']\n        inv_stepsize", 'C14.slot'),
-    Mutant('slot-value-of-input-view', EC, '                        subval, subval_is_scalar = vdict[u]\n                        if subval_is_scalar:\n'
-           '                            partials[u, inp] =',
-           '                        subval, subval_is_scalar = vdict[inp]\n                        if subval_is_scalar:\n'
-           '                            partials[u, inp] =', 'C14.slot'),
+    Mutant('slot-value-of-input-view', EC, '                        subval, subval_is_scalar = vdict[u]\n                        if psize > 1',
+           '                        subval, subval_is_scalar = vdict[inp]\n                        if psize > 1', 'C14.slot'),
     Mutant('slot-colored-part-of-input', EC, 'part = scratch[out_slices[out_name]]', 'part = scratch[in_slices[in_name]]',
            ['C14.slot']),
     # ---- declare
@@ -2460,16 +2558,30 @@ _WHOLE = '''                # set a complex inpup value
                 # solve with complex input value
                 self._exec()
 
+                by_column = []
                 for u in out_names:
                     if (u, inp) in partials:
                         subval, subval_is_scalar = vdict[u]
-                        if subval_is_scalar:
+                        if psize > 1 and subval.size == 1:
+                            # (size-1 output, array input) is declared dense even with has_diag_partials,
+                            # so it needs one perturbation per input element (done below).
+                            by_column.append(u)
+                        elif subval_is_scalar:
                             partials[u, inp] = imag(subval * inv_stepsize)
                         else:
                             partials[u, inp] = imag(subval * inv_stepsize).ravel()
 
                 # restore old input value
                 ival -= step
+
+                if by_column:
+                    for i, idx in enumerate(array_idx_iter(ival.shape)):
+                        ival[idx] += step
+                        self._exec()
+                        for u in by_column:
+                            subval, _ = vdict[u]
+                            partials[u, inp][:, i] = imag(subval * inv_stepsize).ravel()
+                        ival[idx] -= step
 '''
 _ELEM = '''                for i, idx in enumerate(array_idx_iter(ival.shape)):
                     # set a complex input value
@@ -2526,4 +2638,103 @@ selftest(
     Twin('twin-scratch-cleared-by-rows', EC, '                        part[:] = 0.\n', '                        part[:] = 0.0\n'),
     Twin('twin-decl-positional', EC, '                                decl_partials(of=out, wrt=inp, diagonal=True)',
          '                                decl_partials(out, inp, diagonal=True)'),
+)
+
+
+# ---- robustness round: idiom classes accepted after behaviour-preserving refactors (benign/C14_1..3)
+_DECL_GUARD_CLAUSES = '''            for outs, vs, _ in self._exprs_info:
+                ins = sorted(set(vs).difference(outs))
+                for out in sorted(outs):
+                    for inp in ins:
+                        if not has_diag_partials:
+                            decl_partials(of=out, wrt=inp)
+                            continue
+
+                        ival = nodes[('i', self.pathname + '.' + inp)]['attrs'].val
+                        oval = nodes[('o', self.pathname + '.' + out)]['attrs'].val
+                        iarray = isinstance(ival, ndarray) and ival.size > 1
+                        if not (iarray and isinstance(oval, ndarray) and oval.size > 1):
+                            decl_partials(of=out, wrt=inp)
+                            continue
+
+                        if oval.size != ival.size:
+                            raise RuntimeError(
+                                "%s: has_diag_partials is True but partial(%s, %s) "
+                                "is not square (shape=(%d, %d))." %
+                                (self.msginfo, out, inp, oval.size, ival.size))
+                        # partial will be declared as diagonal
+                        decl_partials(of=out, wrt=inp, diagonal=True)
+'''
+_ELEM_STORES = '''                        if (u, inp) in partials:
+                            # set the column in the Jacobian entry
+                            subval, subval_is_scalar = vdict[u]
+                            if subval_is_scalar:
+                                partials[u, inp][:, i] = imag(subval * inv_stepsize)
+                            else:
+                                partials[u, inp][:, i] = imag(subval * inv_stepsize).flat
+'''
+_ELEM_STORES_HOISTED = '''                        key = (u, inp)
+                        if key not in partials:
+                            continue
+                        # set the column in the Jacobian entry
+                        subval, subval_is_scalar = vdict[u]
+                        if not subval_is_scalar:
+                            partials[key][:, i] = imag(subval * inv_stepsize).flat
+                        else:
+                            partials[key][:, i] = imag(subval * inv_stepsize)
+'''
+
+selftest(
+    'C14',
+    # guard clauses with `continue` after each declaration, De Morgan on the array/array test
+    Twin('twin-declare-guard-clauses', EC, _DECL_BLOCK, _DECL_GUARD_CLAUSES),
+    # ... but a guard clause that continues WITHOUT declaring is still a filter
+    Mutant('declare-guard-clause-without-declaration', EC, _DECL_BLOCK,
+           _DECL_GUARD_CLAUSES.replace('                        if not has_diag_partials:\n                            decl_partials(of=out, wrt=inp)\n',
+                                       '                        if not has_diag_partials:\n'), 'C14.declare'),
+    Mutant('declare-break-after-declaration', EC, _DECL_BLOCK,
+           _DECL_GUARD_CLAUSES.replace('decl_partials(of=out, wrt=inp)\n                            continue\n\n                        ival',
+                                       'decl_partials(of=out, wrt=inp)\n                            break\n\n                        ival'),
+           'C14.declare'),
+    Mutant('declare-skip-output', EC, '                for out in sorted(outs):\n                    for inp in ins:\n                        if has_diag',
+           "                for out in sorted(outs):\n                    if out.startswith('_'):\n                        continue\n"
+           '                    for inp in ins:\n                        if has_diag', 'C14.declare'),
+    # key hoisted into a local, membership test as early continue, scalar branches swapped
+    Twin('twin-key-hoisted-early-continue', EC, _ELEM_STORES, _ELEM_STORES_HOISTED),
+    Mutant('slot-hoisted-key-swapped', EC, _ELEM_STORES, _ELEM_STORES_HOISTED.replace('key = (u, inp)', 'key = (inp, u)'),
+           'C14.slot'),
+    Mutant('slot-hoisted-guard-other-key', EC, _ELEM_STORES,
+           _ELEM_STORES_HOISTED.replace('if key not in partials:', 'if (inp, u) not in partials:'), 'C14.slot'),
+    # colored store behind an early continue; renamed sparsity loop variables
+    Twin('twin-colored-early-continue', EC,
+         '                    if key in partials:\n                        # set the column in the Jacobian entry\n'
+         '                        part = scratch[out_slices[out_name]]\n                        partials[key][:, loc_i] = part\n'
+         '                        part[:] = 0.\n',
+         '                    if key not in partials:\n                        continue\n'
+         '                    part = scratch[out_slices[out_name]]\n                    partials[key][:, loc_i] = part\n'
+         '                    part[:] = 0.\n'),
+    Twin('twin-sparsity-loop-renamed', EC,
+         '            for i in range(inarr.size):\n                inarr[i] += step\n                self._exec()\n'
+         '                jac.set_col(self, i, imag(oarr * inv_stepsize))\n                inarr[i] -= step\n',
+         '            for jcol in range(inarr.size):\n                inarr[jcol] += step\n                self._exec()\n'
+         '                jac.set_col(self, jcol, imag(oarr * inv_stepsize))\n                inarr[jcol] -= step\n'),
+)
+
+
+selftest(
+    'C14',
+    # seeds of the seeding round, as permanent mutants
+    Mutant('coloring-zero-inputs-not-moved', EC,
+           "        in_offsets = starting_inputs.copy()\n        in_offsets[in_offsets == 0.0] = 1.0\n        in_offsets *= info['perturb_size']\n",
+           "        in_offsets = starting_inputs * info['perturb_size']\n", 'C14.coloring'),
+    Mutant('coloring-zero-replacement-dropped', EC, '        in_offsets[in_offsets == 0.0] = 1.0\n', '', 'C14.coloring'),
+    Twin('twin-offsets-np-where', EC,
+         "        in_offsets = starting_inputs.copy()\n        in_offsets[in_offsets == 0.0] = 1.0\n        in_offsets *= info['perturb_size']\n",
+         "        in_offsets = np.where(starting_inputs == 0.0, 1.0, starting_inputs) * info['perturb_size']\n"),
+    Mutant('diag-rejects-same-size-other-shape', EC, '                                if oval.size != ival.size:',
+           '                                if oval.shape != ival.shape:', 'C14.diag'),
+    Mutant('diag-rejects-size-1-output', EC, 'if iarray and isinstance(oval, ndarray) and oval.size > 1:',
+           'if iarray and isinstance(oval, ndarray) and oval.size >= 1:', 'C14.diag'),
+    Mutant('slot-scalar-output-whole-store', EC, '                                partials[u, inp][:, i] = imag(subval * inv_stepsize)\n',
+           '                                partials[u, inp] = imag(subval * inv_stepsize)\n', 'C14.slot'),
 )
